@@ -233,6 +233,14 @@ def run_case(case, tmp):
         chan[m + "argv_eq"] = outcome(lambda: p.parse_args([opt + "=" + text]), dest)
         if not text.startswith("-") and full:
             chan[m + "argv_sp"] = outcome(lambda: p.parse_args([opt, text]), dest)
+        if case.get("items"):
+            # the Dict[str, T] setting entry by entry: --key.k=TEXT ... (nested keys below a typed option)
+            # (spelled with the destination name: below an option declared with hyphens the nested form is only
+            # recognised as --my_key.k, see notes/C05.md)
+            items = case["items"]
+            chan[m + "argv_nested_eq"] = outcome(lambda: p.parse_args(["--%s.%s=%s" % (dest, k, t) for k, t in items]), dest)
+            if full and not any(t.startswith("-") for _, t in items):
+                chan[m + "argv_nested_sp"] = outcome(lambda: p.parse_args([x for k, t in items for x in ("--%s.%s" % (dest, k), t)]), dest)
         chan[m + "object_nested"] = outcome(lambda: p.parse_object(json.loads(json.dumps(nested))), dest)
         chan[m + "env"] = outcome(lambda: p.parse_env({envvar: text}), dest)
         if full:
@@ -273,7 +281,7 @@ def run_case(case, tmp):
         chan["yaml/string@after:" + name] = outcome(lambda: make_parser(case, T, "yaml").parse_string(docs[name]), dest)
         chan["yaml/path@after:" + name] = outcome(lambda: make_parser(case, T, "yaml").parse_path(files[name]), dest)
         chan["yaml/cfgfile@after:" + name] = outcome(lambda: make_parser(case, T, "yaml").parse_args(["--cfg", files[name]]), dest)
-    strs = [text]
+    strs = [text] + [t for _, t in (case.get("items") or [])]
     strings_of(val, strs)
     oracle, seen = [], set()
     for s in strs:
